@@ -282,7 +282,7 @@ def run(ctx):
     ctx.extra["rule"] = "every program PyGen.tla builds around exactly one invalid construct (three sub-languages); every predicted-error class string of Lexer.tla's alphabets; every erroneous literal of StrLit.tla"
     ctx.assumptions += ["CPython must reject every mutated program (validates the catalogue); a program CPython accepts is counted as a specification bug and excluded",
                         "an error kind 'names the rule' when it is in RuleKinds(rule) (PyGen.tla); OtherError messages are matched by prefix"]
-    for name in MUT_CONFIGS:
+    for name in MUT_CONFIGS + ([] if ctx.quick else ["mutexprdeep"]):
         run_mutants(ctx, name)
     run_lexer_rules(ctx)
     run_string_rules(ctx)
